@@ -50,9 +50,10 @@ class Rule:
 
 
 class Loop:
-    def __init__(self, invariants=(), decreases=None, iter_name=None, desugar_range_for=False, attrs=None):
+    def __init__(self, invariants=(), decreases=None, iter_name=None, desugar_range_for=False, attrs=None, continue_hint=None):
         self.invariants, self.decreases, self.iter_name = list(invariants), decreases, iter_name
         self.desugar_range_for, self.attrs = desugar_range_for, attrs
+        self.continue_hint = continue_hint
 
 
 DROP = "drop"
@@ -275,7 +276,11 @@ def _fn_edits(spec, item, src, m, edits, rule_counts, clauses, top):
                 co = bo + cm.start()
                 if any(a < co < b for _, _, a, b in inner):
                     continue
-                edits.append(Edit(co, bo + cm.end(), "{ %s += 1; continue; }" % var, "rule", "D9"))
+                ch = ""
+                if lp.continue_hint:
+                    cind = _indent_at(src, co)
+                    ch = "\n" + _hint_text(lp.continue_hint, cind + "    ") + cind + "    "
+                edits.append(Edit(co, bo + cm.end(), "{%s %s += 1; continue; }" % (ch, var), "rule", "D9"))
             edits.append(Edit(bc, bc, "    %s += 1;\n%s" % (var, lind), "rule", "D9"))
         else:
             if lp.iter_name:
@@ -347,6 +352,7 @@ def _fn_edits(spec, item, src, m, edits, rule_counts, clauses, top):
             edits.append(Edit(off, off, txt, "hint", h.supports))
 
     # --- rules (regex on original text of this fn, outside nested items)
+    rule_edits = []
     for r in spec.rules:
         cnt = 0
         for x in r.regex.finditer(src, item.sig_start, item.body_close + 1):
@@ -354,11 +360,22 @@ def _fn_edits(spec, item, src, m, edits, rule_counts, clauses, top):
                 continue
             if m[x.start()] != src[x.start()] and not src[x.start()].isspace():
                 continue  # inside comment / string
-            edits.append(Edit(x.start(), x.end(), x.expand(r.repl), "rule", r.id))
+            e = Edit(x.start(), x.end(), x.expand(r.repl), "rule", r.id)
+            e.rule = r
+            rule_edits.append(e)
             cnt += 1
         rule_counts[r.id] = rule_counts.get(r.id, 0) + cnt
         if cnt < r.min_count:
             raise GenError("anchor lost: rule %s matched %d time(s) in %s, needs >= %d" % (r.id, cnt, spec.qual, r.min_count))
+    # a rule match lying inside another rule's match is applied to that rule's replacement text instead
+    keep = []
+    for e in rule_edits:
+        outer = next((o for o in rule_edits if o is not e and o.start <= e.start and e.end <= o.end and (o.end - o.start) > (e.end - e.start)), None)
+        if outer is not None:
+            outer.text = e.rule.regex.sub(e.rule.repl, outer.text)
+        else:
+            keep.append(e)
+    edits.extend(keep)
 
 
 class Unit:
